@@ -151,11 +151,24 @@ func (x *XObject) Count() int {
 
 // Get retrieves the named property
 func (x *XObject) Get(key string) (XValue, bool) {
+	properties := x.properties()
+
+	// lookups are case-insensitive so several properties can match (e.g. JSON with keys that differ only by
+	// case).. to not depend on map iteration order we take an exact match if there is one and otherwise the
+	// first match in sorted order
+	if v, exists := properties[key]; exists {
+		return v, true
+	}
+
 	key = strings.ToLower(key)
-	for p, v := range x.properties() {
-		if strings.ToLower(p) == key {
-			return v, true
+	match, found := "", false
+	for p := range properties {
+		if strings.ToLower(p) == key && (!found || p < match) {
+			match, found = p, true
 		}
+	}
+	if found {
+		return properties[match], true
 	}
 
 	return nil, false
